@@ -11,7 +11,7 @@ import (
 // Step is what the servers do with one attempt.
 type Step struct {
 	A string `json:"a"` // access: ok down refuse hang 4xx 5xx garbage emptyuri
-	W string `json:"w"` // websocket: down refuse 4xx 5xx garbage emptyuri accept acceptdropw accepthang acceptstay hang
+	W string `json:"w"` // websocket: down refuse 4xx 5xx garbage emptyuri accept acceptdropw acceptbad accepthang acceptstay hang
 	K int    `json:"k"` // accept: messages each way before the drop
 	// what else the HTTP reply carries (access replies and upgrade refusals), as a proxy in front of the relay
 	// might add: ra-sec ra-big ra-neg ra-garbage ra-date close location chunked gzip early (and combinations
@@ -36,7 +36,8 @@ type Obs struct {
 	K       int   `json:"k"`
 	In      []int `json:"in"`      // numbers of the server's messages in the order they arrived on r.In
 	Ack     []int `json:"ack"`     // numbers of the client's messages in the order the server received them
-	Garbled []int `json:"garbled"` // pkg/status run: numbers of the server's messages sent undecodable
+	Garbled []int `json:"garbled"` // pkg/status run: numbers of the server's messages sent undecodable; bad-message run: the unwritable ones
+	Later   []int `json:"later"`   // numbers of the busy sender's messages that arrived on later connections
 	// cancel iteration only: the server saw the client's TCP connection end within 1 s of the cancellation
 	Closed bool `json:"closed"`
 }
@@ -52,6 +53,7 @@ type Trace struct {
 	InSeq        [][]int // per attempt: sequence numbers that arrived on r.In
 	AckSeq       [][]int // per attempt: sequence numbers of client messages the server received
 	Lagged       []bool
+	Malformed    []string // per attempt: why the strict front end refused its request ("" = well-formed)
 	// long-lived connection: numbered messages the user handed to r.Out (time of hand-over) and the echoes on r.In
 	SentAt  []int64
 	EchoSeq []int
@@ -72,7 +74,8 @@ type Case struct {
 	Factor   int64  `json:"factor"`
 	Sched    []Step `json:"sched,omitempty"`
 	Cancel   Cancel `json:"cancel"`
-	Stay     int64  `json:"stay,omitempty"` // acceptstay: how long the healthy connection is kept before the cancel (ns)
+	Stay     int64  `json:"stay,omitempty"`   // acceptstay: how long the healthy connection is kept before the cancel (ns)
+	BadAt    int    `json:"bad_at,omitempty"` // the BadAt-th numbered message of the user has WsMessage.Type 0 (cannot be written)
 	Returned bool   `json:"returned"`
 	Obs      []Obs  `json:"obs,omitempty"`
 	Trace    *Trace `json:"trace,omitempty"`
@@ -99,6 +102,9 @@ func (s Step) coq() string {
 	}
 	if s.W == "acceptstay" {
 		w = lib.App("AcceptThenStay", lib.Nat(s.K))
+	}
+	if s.W == "acceptbad" { // a healthy server; the USER hands over a message that cannot be written: the write loop fails
+		w = lib.App("AcceptThenDropW", lib.Nat(s.K))
 	}
 	return lib.Tuple(accCoq[s.A], w)
 }
@@ -158,7 +164,7 @@ func (c Case) coq() string {
 	cp := lib.App("Some", lib.Tuple(lib.Nat(c.Cancel.I), ph))
 	obs := make([]string, len(c.Obs))
 	for i, o := range c.Obs {
-		obs[i] = lib.App("mkobs", lib.Z(o.GapSS), lib.Z(o.GapES), lib.Bool(o.Timed), lib.Bool(o.Acc), lib.Bool(o.Ws), lib.Bool(o.Est), lib.Nat(o.K), nlist(o.In), nlist(o.Ack), nlist(o.Garbled), lib.Bool(o.Closed))
+		obs[i] = lib.App("mkobs", lib.Z(o.GapSS), lib.Z(o.GapES), lib.Bool(o.Timed), lib.Bool(o.Acc), lib.Bool(o.Ws), lib.Bool(o.Est), lib.Nat(o.K), nlist(o.In), nlist(o.Ack), nlist(o.Later), nlist(o.Garbled), lib.Bool(o.Closed))
 	}
 	return lib.App("CLoop", l, c.cfg(), lib.List(sch), cp, lib.Bool(c.Returned), lib.List(obs))
 }
@@ -175,7 +181,7 @@ func stepFails(loop string, s Step) bool {
 	if loop == "auth" && s.A != "ok" {
 		return true
 	}
-	return s.W != "accept" && s.W != "accepthang" && s.W != "acceptdropw" && s.W != "acceptstay"
+	return s.W != "accept" && s.W != "accepthang" && s.W != "acceptdropw" && s.W != "acceptstay" && s.W != "acceptbad"
 }
 
 // waitBefore is the generator's expectation of the wait in front of attempt i (used only to place
@@ -252,6 +258,19 @@ func genLoopCases(rng *lib.Rng, n int, thorough bool) []Case {
 		c.Cancel = Cancel{I: 1, P: "conn"}
 		cs = append(cs, c)
 	}
+	for i, via := range []string{"", "client"} {
+		// a healthy server and a user who hands over one message that cannot be written (Type 0, e.g. a
+		// pkg/client.Message whose Type was never set): that message is lost, the write loop gives the connection
+		// up, ONE new connection follows at once, everything else passes in order
+		c := Case{Kind: "loop", Loop: []string{"plain", "auth"}[i], Via: via, Min: cfgMin, Max: cfgMax, Factor: cfgFact,
+			Stay: int64(2500 * time.Millisecond), BadAt: 3 + i}
+		if via == "client" {
+			c.Min, c.Max = 1000*ms, 10000*ms
+		}
+		c.Sched = []Step{{A: "ok", W: "acceptbad"}, {A: "ok", W: "acceptstay"}}
+		c.Cancel = Cancel{I: 1, P: "conn"}
+		cs = append(cs, c)
+	}
 	cs = append(cs, genWrapperCases(rng.Fork(), map[bool]int{false: 2, true: 4}[thorough])...)
 	for i := 0; i < nOutage; i++ { // long outages
 		cs = append(cs, genOutageCase(rng.Fork(), []string{"plain", "auth"}[i%2]))
@@ -289,6 +308,7 @@ func genLoopCases(rng *lib.Rng, n int, thorough bool) []Case {
 				sched = append(sched, Step{A: "ok", W: r.Pick(fast)})
 			}
 			sched = append(sched, Step{A: "ok", W: "acceptdropw", K: 1})
+			sched = append(sched, Step{A: "ok", W: "accept", K: r.Range(2, 5)}) // sees what the busy sender sends next, and in which order
 			for k := r.Range(2, 3); k > 0; k-- {
 				sched = append(sched, genStep(r, loop, 0))
 			}
@@ -483,7 +503,11 @@ func genWrapperCases(r *lib.Rng, per int) []Case {
 			if w.via == "file" {
 				c.Stay = int64(4 * time.Second) // the play file sends 8 numbered lines, 300 ms apart
 			}
-			for k := 1 + (n % 2); k > 0; k-- {
+			nf := 1 + (n % 2)
+			if w.via == "file" {
+				nf = 2 // the tool starts playing 1 s after its start: the first connection must come later than that
+			}
+			for k := nf; k > 0; k-- {
 				st := Step{A: "ok", W: r.Pick(fast)}
 				if w.loop == "auth" && r.Bool() {
 					st = Step{A: r.Pick(accFail), W: "down"}
@@ -493,7 +517,11 @@ func genWrapperCases(r *lib.Rng, per int) []Case {
 				}
 				c.Sched = append(c.Sched, st)
 			}
-			c.Sched = append(c.Sched, Step{A: "ok", W: "accept", K: r.Range(1, 4)}, Step{A: "ok", W: "acceptstay"})
+			k := r.Range(1, 4)
+			if w.via == "rwc" {
+				k = 1 // the hub between the user and the client drops what does not fit a 2-slot queue: one at a time
+			}
+			c.Sched = append(c.Sched, Step{A: "ok", W: "accept", K: k}, Step{A: "ok", W: "acceptstay"})
 			c.Cancel = Cancel{I: len(c.Sched) - 1, P: "conn"}
 			cs = append(cs, c)
 		}
